@@ -1292,6 +1292,9 @@ def gen_from_splits(tree_mod, bip_cls):
             kws[kw.arg] = "(Some (Some %s))" % ("true" if kw.value.value else "false")
         elif ty == "oZ":
             kws[kw.arg] = "(Some (Some %s))" % fc.expr(kw.value, envc)
+        elif ty == "obool" and isinstance(kw.value, ast.Name) and kw.value.id == "is_rooted":
+            # the method's own parameter (bool or None), handed on as it is
+            kws[kw.arg] = "(Some is_rooted)"
         else:
             raise Unsupported("keyword value %s of Bipartition()" % kw.arg)
     initargs = " ".join(kws.get(key, "None") for key, _t in m.kw_params)
@@ -1314,7 +1317,7 @@ def gen_from_splits(tree_mod, bip_cls):
     out.append("(* Tree.from_split_bitmasks: one iteration of the insertion loop, at the node the\n"
                "   leaf-to-root search stops at *)")
     out.append(
-        "Definition gen_from_splits_at_node (all_taxa_bitmask %s : Z) (parent_node : mtree) : res mtree :=\n"
+        "Definition gen_from_splits_at_node (is_rooted : option bool) (all_taxa_bitmask %s : Z) (parent_node : mtree) : res mtree :=\n"
         "  if %s then Ok parent_node else\n"
         "  let new_mask := %s in\n"
         "  do gathered <- fold_left (fun acc_ %s =>\n"
@@ -1338,10 +1341,10 @@ def gen_from_splits(tree_mod, bip_cls):
         % (sv, present, mask0, ch, cv, cvcode, gtest, gassert, gupd, ch, initargs, ftest))
     out.append("(* Tree.from_split_bitmasks: one iteration of the insertion loop *)")
     out.append(
-        "Definition gen_from_splits_step (all_taxa_bitmask : Z) (t : mtree) (%s : Z) : res mtree :=\n"
+        "Definition gen_from_splits_step (is_rooted : option bool) (all_taxa_bitmask : Z) (t : mtree) (%s : Z) : res mtree :=\n"
         "  if %s then Ok t else\n"
         "  let %s := %s in\n"
-        "  prim_locate_apply (fun mask_ => %s) %s (gen_from_splits_at_node all_taxa_bitmask %s) t.\n"
+        "  prim_locate_apply (fun mask_ => %s) %s (gen_from_splits_at_node is_rooted all_taxa_bitmask %s) t.\n"
         % (sv, outside, lbname, lbcode, not_covers, lbname, sv))
     out.append("(* Tree.from_split_bitmasks *)")
     out.append(
@@ -1351,7 +1354,7 @@ def gen_from_splits(tree_mod, bip_cls):
         "  do enc <- gen_encode_bipartitions %s (lookup ns) is_rooted (star ns);;\n"
         "  do t0 <- prim_working_tree enc;;\n"
         "  let split_bitmasks_to_add := gen_splits_to_add is_rooted all_taxa_bitmask split_bitmasks in\n"
-        "  fold_left (fun acc_ %s => do t <- acc_;; gen_from_splits_step all_taxa_bitmask t %s) split_bitmasks_to_add (Ok t0).\n"
+        "  fold_left (fun acc_ %s => do t <- acc_;; gen_from_splits_step is_rooted all_taxa_bitmask t %s) split_bitmasks_to_add (Ok t0).\n"
         % (" ".join(flags), sv, sv))
     return out
 
